@@ -33,7 +33,7 @@ LEVEL_TEXT = ("The model's operations ARE the list operations of the property; t
               "family, no existing parent changed) is evaluated on the implementation's observed insertion index with the proved constructor model. "
               "insertion_preserves_parents characterises when an inserted line leaves every existing parent link alone (conditions A and B), and insertion_after_family_preserves_parents proves both "
               "conditions for every insertion directly above a shallower ordinary command or at the end of the configuration (append_to_family's normal case).")
-LEVEL_NOTE = ("PARTIAL for append_to_family: its index arithmetic is modelled only for the child case at indent width 1 (atf_child_index, theorems atf_child_index_iff / _in_family: directly after the last descendant, after every descendant); otherwise the contract is checked per observed case (the index it picks is not proved for all configs; what is proved is that the index the contract allows is harmless). Known finding F35 (families made "
+LEVEL_NOTE = ("PARTIAL for append_to_family: its index arithmetic is modelled only for the child case at indent width 1 (atf_child_index, theorems atf_child_index_iff / _in_family: directly after the last descendant, after every descendant); otherwise the contract is checked per observed case (the index it picks is not proved for all configs; what is proved is that the index the contract allows is harmless). Known findings F43 (sibling-level payload on a target with children is placed inside the family; pinned by a test) and F35 (families made "
               "non-contiguous by the comment exception) is recognised by its trigger. Trusted: Coq kernel + vm_compute, hand model, regex oracle, driver.")
 
 SYM = ["a", " b", "  c", " Eth1", "!x", ""]
